@@ -59,6 +59,8 @@ Section Safe.
     | _ => false
     end.
   Definition is_cmp (o : binop) : bool := match o with OAnd | OOr => false | _ => true end.
+  (* a unary sign is covered in front of a path operand only: in front of a literal the text may lex as a signed number *)
+  Definition is_paths (e : expr) : bool := match e with EPaths _ => true | _ => false end.
 
   (* fuel mirrors the fuel of show_path / show_expr, so that safe implies "printed in full" *)
   Fixpoint safe_step (fuel : nat) (p : path) : bool :=
@@ -74,6 +76,7 @@ Section Safe.
         if is_cmp op then (2 <=? f)%nat && safe_operand rp l && safe_operand rp r
         else safe_expr f rp l && safe_expr f rp r
     | EArithB _ l r => (2 <=? f)%nat && safe_operand rp l && safe_operand rp r
+    | EArithU _ x => (2 <=? f)%nat && is_paths x && safe_operand rp x
     | EExists (PRoot :: l) | EExists (PCurrent :: l) => (1 <=? f)%nat && forallb (safe_step f) l
     | _ => false
     end end.
